@@ -678,3 +678,54 @@ impl BsUnit {
             })
     }
 }
+
+/// verification hook: a line row as plain data
+/// (address, file_index, line, column, is_stmt, prolog_end, epilog_begin, end_sequence)
+#[cfg(feature = "verif")]
+pub type VerifRow = (u64, u64, u64, u64, bool, bool, bool, bool);
+
+#[cfg(feature = "verif")]
+impl BsUnit {
+    /// verification hook: `lines` as the look-ups see it (after the parser's sort)
+    pub fn verif_lines(&self) -> Vec<VerifRow> {
+        self.lines
+            .iter()
+            .map(|l| {
+                (
+                    l.address,
+                    l.file_index,
+                    l.line,
+                    l.column,
+                    l.is_stmt(),
+                    l.prolog_end(),
+                    l.epilog_begin(),
+                    l.end_sequence(),
+                )
+            })
+            .collect()
+    }
+
+    /// verification hook: number of rows without copying them
+    pub fn verif_lines_len(&self) -> usize {
+        self.lines.len()
+    }
+
+    /// verification hook: (die offset, FunctionInfo.name) of `function_index`, `None` if the lazy
+    /// part is not loaded
+    pub fn verif_function_index(&self) -> Option<Vec<(usize, Option<String>)>> {
+        self.lazy_part.get().map(|lp| {
+            lp.function_index
+                .iter()
+                .map(|(off, info)| (off.0, info.name.clone()))
+                .collect()
+        })
+    }
+}
+
+#[cfg(feature = "verif")]
+impl PlaceDescriptor<'_> {
+    /// verification hook: registry index of the unit this place belongs to
+    pub fn verif_unit_idx(&self) -> usize {
+        self.unit.idx()
+    }
+}
